@@ -43,12 +43,12 @@ func runC03(c *Ctx) {
 	ruleTrailerTokenised(c, p, "C03.T")
 	c.Rule("C03.X", "1xx interim responses do not latch / are not published as final; final statuses do latch", 6)
 	ruleInterimNoLatch(c, p, "C03.X")
-	c.Rule("C03.H", "hop-by-hop tables exact; every response-side header/trailer copy guarded by the predicate on the same key", 8)
+	c.Rule("C03.H", "hop-by-hop tables exact; every response-side header/trailer copy guarded by the predicate on the same key", 14)
 	ruleHopTables(c, p, "C03.H")
 	ruleHopGuardsResponse(c, p, "C03.H")
 	c.Rule("C03.C", "forced chunked framing dominates serialisation of the same response", 1)
 	ruleForcedChunked(c, p, "C03.C")
-	c.Rule("C03.S", "status and body pass through the wrappers and the proxy unchanged", 9)
+	c.Rule("C03.S", "status and body pass through the wrappers and the proxy unchanged", 12)
 	ruleStatusBodyPassThrough(c, p, "C03.S")
 }
 
@@ -435,6 +435,12 @@ func ruleHopGuardsResponse(c *Ctx, p *Prog, rule string) {
 			n++
 			k := fmt.Sprintf("%s:copy#%d", fnName, n)
 			c.Check(rule, k, p, i.Pos(), hopGuard(i, key, false), "copy of header/trailer field guarded by the hop-by-hop predicate on the same key", "header/trailer field "+PathOf(key)+" is copied to the response without the hop-by-hop test on that key: hop-by-hop fields would reach the client")
+			// no other filter: every condition the copy depends on is of a known kind
+			if extra := unknownGuards(p, i, fn); extra != "" {
+				c.Bad(rule, k+":no-extra-filter", p, i.Pos(), "the copy of header/trailer field "+PathOf(key)+" additionally depends on "+extra+": a filter other than the hop-by-hop predicate drops end-to-end fields or trailers for some responses")
+			} else {
+				c.OK(rule, k+":no-extra-filter", p, i.Pos(), "the copy depends only on loop conditions, the hop-by-hop predicate, the trailer-prefix test, emptiness tests and the writer's latch/status tests")
+			}
 		})
 		if n < wantMin {
 			c.Bad(rule, fnName+":copy-sites", p, fn.Pos(), fmt.Sprintf("found %d header/trailer copy loops, expected at least %d", n, wantMin))
@@ -557,4 +563,76 @@ func ruleStatusBodyPassThrough(c *Ctx, p *Prog, rule string) {
 	} else {
 		c.Unk(rule, "anchor:streamingResponseWriter.WriteHeader", p, 0, "not found")
 	}
+}
+
+// unknownGuards classifies every branch condition instruction i is
+// control-dependent on; it returns a description of the first one that is
+// not of a known, harmless kind.
+func unknownGuards(p *Prog, i ssa.Instruction, fn *ssa.Function) string {
+	for _, g := range GuardingIfs(i) {
+		cond, _ := BoolTest(g.If)
+		if knownGuard(cond, fn) {
+			continue
+		}
+		return fmt.Sprintf("the condition at %s (%s)", p.Pos(g.If.Pos()), cond.String())
+	}
+	return ""
+}
+
+func knownGuard(cond ssa.Value, fn *ssa.Function) bool {
+	switch x := cond.(type) {
+	case *ssa.Extract:
+		switch t := x.Tuple.(type) {
+		case *ssa.Next:
+			return x.Index == 0
+		case *ssa.Lookup: // comma-ok lookup in the hop table
+			return x.Index == 1 && PathOf(t.X) == "*global:hopHeaders"
+		case *ssa.Call:
+			n := CalleeName(t.Common())
+			return n == "strings.CutPrefix" && x.Index == 1
+		}
+	case *ssa.Lookup:
+		return PathOf(x.X) == "*global:hopHeaders"
+	case *ssa.Call:
+		n := CalleeName(x.Common())
+		return strings.HasSuffix(n, "/server.isHopByHopHeader") || n == "strings.HasPrefix"
+	case *ssa.BinOp:
+		// range index < len
+		if ph, ok := x.X.(*ssa.BinOp); ok && strings.Contains(ph.X.Name(), "") {
+			if phi, ok := ph.X.(*ssa.Phi); ok && phi.Comment == "rangeindex" {
+				return true
+			}
+		}
+		// select arm index
+		if e, ok := x.X.(*ssa.Extract); ok {
+			if _, ok := e.Tuple.(*ssa.Select); ok && e.Index == 0 {
+				return true
+			}
+		}
+		// emptiness test of a string
+		if s, ok := ConstString(x.Y); ok && s == "" {
+			return true
+		}
+		if s, ok := ConstString(x.X); ok && s == "" {
+			return true
+		}
+		// comparisons of the status parameter with constants
+		if len(fn.Params) >= 2 {
+			if x.X == ssa.Value(fn.Params[1]) || x.Y == ssa.Value(fn.Params[1]) {
+				return true
+			}
+		}
+		// nil tests
+		if IsNilConst(x.X) || IsNilConst(x.Y) {
+			return true
+		}
+	case *ssa.UnOp:
+		// the writer's latch (bool field of the receiver)
+		if _, _, ok := FieldLoad(x); ok {
+			if b, isB := x.Type().Underlying().(*types.Basic); isB && b.Kind() == types.Bool {
+				return true
+			}
+		}
+	}
+	return false
 }
